@@ -321,7 +321,92 @@ def _stub_eigh(a):
 
 
 def _pin(kind, a, **outs):
-    """hook for the pinned-witness mode (see symx.witness); no-op in contract mode."""
-    cb = LAPACK.get('on_call')
-    if cb is not None:
-        cb(kind, a, outs)
+    """pinned rational witness (vacuity guard): record equations fixing the stub outputs to an exact rational
+    decomposition (Householder reflectors, rational spectrum) and the input matrix to their product.  The runner checks at
+    the end of each path that assumptions + path condition + pins are satisfiable: with everything pinned this is evaluation."""
+    E = core.ENG
+    if not hasattr(E, 'pins'):
+        E.pins = []
+    import random
+    rnd = random.Random(1000 + len(E.pins))
+    cplx = any(isinstance(x, SC) for o in outs.values() for x in o.flat)
+    m, n = a.shape
+
+    def house(d):
+        if d == 0:
+            return np.zeros((0, 0), dtype=object)
+        while True:
+            v = [complex(rnd.randint(-2, 2), rnd.randint(-2, 2) if cplx else 0) for _ in range(d)]
+            vv = sum(int(x.real) ** 2 + int(x.imag) ** 2 for x in v)
+            if vv:
+                break
+        H = np.empty((d, d), dtype=object)
+        for i in range(d):
+            for j in range(d):
+                # (I - 2 v v^H / v^H v)_{ij}
+                re = Fraction(int(i == j)) - Fraction(2 * int(round((v[i] * v[j].conjugate()).real)), vv)
+                im = -Fraction(2 * int(round((v[i] * v[j].conjugate()).imag)), vv)
+                H[i, j] = (re, im)
+        return H
+
+    def cmul(x, y):
+        return (x[0] * y[0] - x[1] * y[1], x[0] * y[1] + x[1] * y[0])
+
+    def pin_elem(sym_x, val):
+        r, i = zc(sym_x)
+        E.pins.append(r == rv(val[0]))
+        if cplx or val[1] != 0:
+            E.pins.append(i == rv(val[1]))
+
+    if kind == 'svd':
+        k = min(m, n)
+        Hu, Hv = house(m), house(n)
+        sv = sorted([Fraction(rnd.randint(0, 6), rnd.randint(1, 3)) for _ in range(k)], reverse=True)
+        Uw = [[Hu[i, j] for j in range(k)] for i in range(m)]
+        Vw = [[Hv[i, j] for j in range(n)] for i in range(k)]
+        for i in range(m):
+            for j in range(k):
+                pin_elem(outs['U'][i, j], Uw[i][j])
+        for i in range(k):
+            pin_elem(outs['S'][i], (sv[i], Fraction(0)))
+            for j in range(n):
+                pin_elem(outs['V'][i, j], Vw[i][j])
+        for i in range(m):
+            for j in range(n):
+                tot = (Fraction(0), Fraction(0))
+                for l in range(k):
+                    t = cmul(Uw[i][l], Vw[l][j])
+                    tot = (tot[0] + sv[l] * t[0], tot[1] + sv[l] * t[1])
+                pin_elem(a[i, j], tot)
+    elif kind == 'qr':
+        k = min(m, n)
+        Hq = house(m)
+        Rw = [[(Fraction(rnd.randint(-3, 3), rnd.randint(1, 2)), Fraction(rnd.randint(-2, 2) if cplx and i != j else 0)) if j >= i else (Fraction(0), Fraction(0))
+               for j in range(n)] for i in range(k)]
+        for i in range(m):
+            for j in range(k):
+                pin_elem(outs['Q'][i, j], Hq[i, j])
+        for i in range(k):
+            for j in range(i, n):
+                pin_elem(outs['R'][i, j], Rw[i][j])
+        for i in range(m):
+            for j in range(n):
+                tot = (Fraction(0), Fraction(0))
+                for l in range(k):
+                    t = cmul(Hq[i, l], Rw[l][j])
+                    tot = (tot[0] + t[0], tot[1] + t[1])
+                pin_elem(a[i, j], tot)
+    elif kind == 'eigh':
+        Hu = house(n)
+        ev = sorted(Fraction(rnd.randint(-6, 6), rnd.randint(1, 3)) for _ in range(n))
+        for i in range(n):
+            pin_elem(outs['S'][i], (ev[i], Fraction(0)))
+            for j in range(n):
+                pin_elem(outs['U'][i, j], Hu[i, j])
+        for i in range(n):
+            for j in range(n):
+                tot = (Fraction(0), Fraction(0))
+                for l in range(n):
+                    t = cmul(Hu[i, l], (Hu[j, l][0], -Hu[j, l][1]))
+                    tot = (tot[0] + ev[l] * t[0], tot[1] + ev[l] * t[1])
+                pin_elem(a[i, j], tot)
